@@ -650,7 +650,11 @@ regp_resp_ack(RegP *p, const RPFrame *f, const void *pl, const size_t n)
     uint16_t plcrc = 0u;
     size_t plsize = 0u;
 
-    if (p->memory.type == RP_MEMTYPE_16) {
+    /* A response mirrors the word size of the request it answers; n counts
+     * words of that size. */
+    const bool sem16 = regp_is_16bitsem(f);
+
+    if (sem16) {
         plcrc = pl != NULL ? ufw_buffer_crc16_arc_u16(pl, n) : 0u;
         plsize = n * sizeof(uint16_t);
     } else {
@@ -662,7 +666,7 @@ regp_resp_ack(RegP *p, const RPFrame *f, const void *pl, const size_t n)
 #endif /* WITH_UINT8_T */
     }
     const size_t size = sizeof(uint16_t) *
-        encode_header(header, p, MSEM_AUTO,
+        encode_header(header, p, sem16 ? MSEM_16BIT : MSEM_8BIT,
                       req2resp(f->header.type), 0u, f->header.sequence,
                       f->header.address, n, plcrc);
     return send_memory(p, header, size, (void*)pl, plsize);
